@@ -182,6 +182,22 @@ fn c12_out_of_range_constant_operands_stay_inside_the_slot() {
         code.extend([0x02, 0x60, 0x01, 0x55, 0x00]);
         progs.push((format!("sstore(1, (sload(1)&m64) * ({name}))"), code));
     }
+    // 2^k * (a product / sum / masked sum that is not a plain sub-word): the shifted operand is not a sub-word
+    for k in [2u32, 8, 64, 200] {
+        for (iname, inner) in [("2 * cd(0)", vec![0x60u8, 0x00, 0x35, 0x60, 0x02, 0x02]), ("cd(0) * cd(32)", vec![0x60, 0x20, 0x35, 0x60, 0x00, 0x35, 0x02]), ("cd(0) + 1", vec![0x60, 0x01, 0x60, 0x00, 0x35, 0x01]),
+                               ("(cd(0) & 0xff) * (cd(32) & 0xff)", vec![0x60, 0xff, 0x60, 0x20, 0x35, 0x16, 0x60, 0xff, 0x60, 0x00, 0x35, 0x16, 0x02]), ("(cd(0) & 0xff) * 3", vec![0x60, 0x03, 0x60, 0xff, 0x60, 0x00, 0x35, 0x16, 0x02])] {
+            for left in [false, true] {
+                let mut code = vec![];
+                if left { push_word(&mut code, U256::ONE << k); code.extend(&inner); } else { code.extend(&inner); push_word(&mut code, U256::ONE << k); }
+                code.extend([0x02, 0x60, 0x00, 0x55, 0x00]);
+                progs.push((format!("sstore(0, 2^{k} * ({iname}))"), code.clone()));
+                // ... OR-ed with a masked field
+                let mut c2 = code[..code.len() - 4].to_vec();
+                c2.extend([0x60, 0xff, 0x60, 0x40, 0x35, 0x16, 0x17, 0x60, 0x00, 0x55, 0x00]);
+                progs.push((format!("sstore(0, 2^{k} * ({iname}) | cd(64) & 0xff)"), c2));
+            }
+        }
+    }
     for c in big {
         for (name, op, swapped) in [("signextend", 0x0bu8, false), ("signextend", 0x0b, true), ("byte", 0x1a, false), ("shl", 0x1b, false), ("shr", 0x1c, false), ("sar", 0x1d, false), ("exp", 0x0a, true), ("div", 0x04, true), ("mod", 0x06, true)] {
             for src in [vec![0x60u8, 0x00, 0x54], vec![0x60, 0x00, 0x35]] {
